@@ -149,6 +149,14 @@ func runC16(c *mon.Ctx) {
 			n += len(u.Plan)
 		}
 		s1 := gen.Mux(map[uint16][]*gen.Unit{0x100: us}, repeatPID(0x100, n), nil)
+		// whether a buffer that went back to a sync.Pool is handed out again by the next Get is up to the runtime (per-P caches,
+		// garbage collections, and under the race detector a quarter of the Puts are dropped on purpose): each boundary is run
+		// several times so that a reuse is observed
+		for rep := 0; rep < 4; rep++ {
+			s2 := richStream(r)
+			aliasCase(c, i, r, s1, s2, []string{"data", "packet"}[(int(i)+rep/2)%2])
+			c.Count("size_boundary_alias_runs")
+		}
 		s2 := richStream(r)
 		aliasCase(c, i, r, s1, s2, []string{"data", "packet"}[i%2])
 		c.Count("size_boundary_alias_runs")
